@@ -279,6 +279,15 @@ static void run_c03() {
             for (int a = 0; a < 3; ++a) { rx::AstPool ap; int root = ap.leaf(a); ctr["C03.hex_spelling_patterns"]++; check_pattern(ap, atoms, root); }
         }
     }
+    // "Escaped char": a backslash followed by any printable character other than x is that character (\\n is the letter n, not a line feed), alone, in a set, as a range end
+    for (int c = 0x21; c < 0x7f; ++c) {
+        if (c == 'x') continue;
+        if ((idx++ % cfg.nshards) != cfg.shard || deadline_hit) continue;
+        std::string esc = std::string("\\") + char(c);
+        std::vector<rx::Atom> atoms = {rx::Atom{esc, cs_of({c})}, rx::Atom{"[" + esc + "]", cs_of({c})}, rx::Atom{"[^" + esc + "]", ~cs_of({c})}, rx::Atom{"[!-" + esc + "]", cs_range('!', c)}};
+        for (int a = 0; a < 4; ++a) { rx::AstPool ap; int root = ap.leaf(a); ctr["C03.escaped_char_patterns"]++; check_pattern(ap, atoms, root); }
+        { rx::AstPool ap; int root = ap.bin(rx::CAT, ap.leaf(0), ap.un(rx::OPT, ap.leaf(1))); check_pattern(ap, atoms, root); }
+    }
     // one-dimensional sweep (not exhaustive): repetition counts of two, three and four digits, on shapes outside the known merge defect
     {
         const Pool& P = pools.back();   // atoms a, b, c
